@@ -52,8 +52,8 @@ def _find_findings(pid):
     if os.path.exists(path):
         for line in open(path, encoding='utf-8'):
             line = line.strip()
-            if not line or line.startswith('#'):
-                continue
+            if not line.startswith('{'):
+                continue      # comments and 'fixed: property=<id> <commit> <what>' records
             d = json.loads(line)
             if d.get('property') == pid:
                 res.append(d)
